@@ -31,6 +31,7 @@ type line struct {
 	era  string // for signature hashes: the era of the state
 	// mutant lines: index of the base line, the mutated leaf, whether the real hash changed
 	mutant   bool
+	canary   bool // a corrupted copy of a real request: must NOT agree with the code's hash
 	base     int
 	leaf     string
 	codeDiff bool
@@ -52,6 +53,7 @@ type checker struct {
 	kindLines   map[string]int
 	kindAgree   map[string]int
 	eraLines    map[string]int
+	eraCalls    map[string]int // v2 signature hashes: calls of the code per era (one pre-image for all eras)
 	srcLines    map[string]int
 	mutEffect   map[string]int // kind -> single-leaf mutations of effect-bearing members
 	mutWitness  map[string]int // kind -> single-leaf mutations of witness members
@@ -66,7 +68,7 @@ type checker struct {
 }
 
 func newChecker(c *vlib.Ctx, s wb.Schema) *checker {
-	return &checker{c: c, s: s, seen: map[string]int{}, kindLines: map[string]int{}, kindAgree: map[string]int{}, eraLines: map[string]int{},
+	return &checker{c: c, s: s, seen: map[string]int{}, kindLines: map[string]int{}, kindAgree: map[string]int{}, eraLines: map[string]int{}, eraCalls: map[string]int{},
 		srcLines: map[string]int{}, mutEffect: map[string]int{}, mutWitness: map[string]int{}, mutPatterns: map[string]map[string]string{},
 		dynCovered: map[string]int{}, dynUncov: map[string]int{}}
 }
@@ -242,7 +244,10 @@ func (k *checker) judge() {
 	c := k.c
 	reported := map[string]bool{}
 	for i, l := range k.lines {
-		if l.kind == "canary" {
+		if l.canary {
+			if val, err := evalTerm(l.term); err == nil && len(val) == 32 && types.Hash256(val) == l.got {
+				k.canariesBad++
+			}
 			continue
 		}
 		k.kindLines[l.kind]++
@@ -301,7 +306,7 @@ func (k *checker) judge() {
 			if specDiff != l.codeDiff {
 				what := "not-bound"
 				if l.codeDiff {
-					what = "bound-but-not-covered"
+					what = "witness-bound"
 				}
 				key := l.kind + "/" + fieldKey(l.leaf) + "-" + what
 				if !reported[key] {
